@@ -1,5 +1,7 @@
 """DNS wire codec from MIR: DNSPkt::serialise_with_size (C04) and parse(serialise(m)) (C14) on messages of concrete
 shape (record counts, rdata lengths, label lengths) with symbolic contents and a symbolic size limit."""
+import os
+
 import z3
 
 from .interp import Exec
@@ -301,7 +303,7 @@ def roundtrip_obligation(prog, enums, structs, layout, with_edns, sym_flags=Fals
     getd = find(prog, "get_dns", 1, "parse")
     if len(newp) != 1:
         raise Unsupported("PktParser::new not found")
-    ex = Exec(prog, S, enums, max_unroll=24, timeout_s=150, max_paths=3000)
+    ex = Exec(prog, S, enums, max_unroll=24, timeout_s=int(os.environ.get("VERIF_MIR_EXPLORE_S", "240")), max_paths=3000)
 
     def run(e):
         pkt = mk_named_msg(e, structs, layout, with_edns, sym_flags)
